@@ -96,6 +96,22 @@ def relocations_of(header, items_file):
     return pairs
 
 
+def relocate(s):
+    """a type / path string with moved and renamed items written under their reference paths (generics kept)"""
+    for rx, rep in _RELOC:
+        s = rx.sub(rep, s)
+    return s
+
+
+_FN_RENAME = {}      # normalised path of a renamed / moved function -> its reference path
+
+
+def install_fn_renames(m):
+    global _FN_RENAME
+    _FN_RENAME = dict(m)
+    _norm_cache.clear()
+
+
 def norm(s):
     r = _norm_cache.get(s)
     if r is None:
@@ -103,6 +119,10 @@ def norm(s):
         for rx, rep in _RELOC:
             r = rx.sub(rep, r)
         r = strip_generics(r)
+        if _FN_RENAME:
+            head = r.split('::{closure', 1)[0]
+            if head in _FN_RENAME:
+                r = _FN_RENAME[head] + r[len(head):]
         r = re.sub(r"\{closure#(\d+)\}", r"{closure#\1}", r)
         _norm_cache[s] = r
     return r
@@ -691,10 +711,18 @@ class Facts:
         self.relocations = relocations_of(self.header, _os.path.join(_os.path.dirname(_os.path.abspath(__file__)),
                                                                      'baseline_items.txt')) \
             if baseline is None else []
-        install_relocations(self.relocations)
+        import canon as _canon
+        self.canon = _canon.Canon(self.header, _canon.load_reference() if baseline is None else None,
+                                  self.relocations, lines[1:])
+        # renamed private types are read under their reference path, their variants / fields under the reference names
+        self.trait_renames = self.canon.match_traits(self.header, _os.path.join(_os.path.dirname(
+            _os.path.abspath(__file__)), 'baseline_items.txt')) if baseline is None else []
+        install_relocations(self.relocations + self.canon.renamed_types() + self.trait_renames)
+        self.canon.apply_header(self.header)
         self.norm_index = defaultdict(list)
         for p in self._raw:
             self.norm_index[norm(p)].append(p)
+        install_fn_renames({})
         self.adts = {norm(a['path']): a for a in self.header['adts']}
         self.impls = self.header['impls']
         self.n_bodies = len(self.order)
@@ -705,6 +733,19 @@ class Facts:
             None if self._baseline_arg is False else dict.fromkeys(self._baseline_arg, (None, None, None))
             if not isinstance(self._baseline_arg, dict) else self._baseline_arg)
         self.inlined = {}
+        # renamed / moved functions are read under their reference path
+        self.fn_renames = {}
+        if baseline is None and self.baseline:
+            leaf_map = {c.rsplit('::', 1)[-1]: r.rsplit('::', 1)[-1] for c, r in self.canon.adt_pairs.items()
+                        if c.rsplit('::', 1)[-1] != r.rsplit('::', 1)[-1]}
+            leaf_map.update({c.rsplit('::', 1)[-1]: r.rsplit('::', 1)[-1] for c, r in self.trait_renames
+                             if c.rsplit('::', 1)[-1] != r.rsplit('::', 1)[-1]})
+            self.fn_renames = _canon.match_functions(self, norm, self.baseline, leaf_map)
+            if self.fn_renames:
+                install_fn_renames(self.fn_renames)
+                self.norm_index = defaultdict(list)
+                for p in self._raw:
+                    self.norm_index[norm(p)].append(p)
 
     def is_new_helper(self, npath):
         """a function that does not exist on the reference tree and is not a rename: rules see it inlined in its
@@ -734,9 +775,13 @@ class Facts:
             root = root[:root.rindex('::{closure#')]
         return root in self._inlined_set
 
+    def load_dicts(self, path):
+        """the body dicts stored under a raw path, with private names canonicalised (rules/canon.py)"""
+        return [self.canon.apply(json.loads(l)) for l in self._raw[path]]
+
     def bodies_raw(self, path):
         if path not in self._bodies:
-            ds = [json.loads(l) for l in self._raw[path]]
+            ds = self.load_dicts(path)
             if self._baseline_arg is not False:
                 import inliner
                 ds = [inliner.prepare_body(self, d, norm) for d in ds]
